@@ -3,9 +3,10 @@
 sub-agent that seeds defects (it gets the property text and a scratch worktree, nothing from /verif)."""
 import json, sys
 pid, wt = sys.argv[1:3]
-round2 = len(sys.argv) > 3 and sys.argv[3] in ("r2", "r3", "r4")
-round3 = len(sys.argv) > 3 and sys.argv[3] in ("r3", "r4")
-round4 = len(sys.argv) > 3 and sys.argv[3] == "r4"
+round2 = len(sys.argv) > 3 and sys.argv[3] in ("r2", "r3", "r4", "r5")
+round3 = len(sys.argv) > 3 and sys.argv[3] in ("r3", "r4", "r5")
+round4 = len(sys.argv) > 3 and sys.argv[3] in ("r4", "r5")
+round5 = len(sys.argv) > 3 and sys.argv[3] == "r5"
 p = {json.loads(l)["id"]: json.loads(l) for l in open("/verif/properties.jsonl")}[pid]
 txt = '''You are helping test a verification tool by writing *seeded defects* for an open-source Go project (sassoftware/relic, a package-signing tool and server). You work ONLY inside your own scratch git worktree at {wt} (a checkout of the project). Do not read or write anything under /verif or /repo, and do not look for any verification tooling: your changes must be independent of it.
 
@@ -42,6 +43,9 @@ if round3:
 if round4:
     txt = txt.replace("This is a third round of testing: two earlier rounds of testers already produced six changes", "This is a fourth round of testing: three earlier rounds of testers already produced nine changes")
     txt = txt.replace("As before:", "Also consider: a change that is correct for every input the existing fixtures contain but wrong for a legal input of another shape (another key type, digest, size class, optional field present or absent); a change in how two versions of the same data are kept consistent; a resource whose lifetime is now tied to the wrong owner. As before:")
-suffix = "-r4" if round4 else ("-r3" if round3 else ("-r2" if round2 else ""))
+if round5:
+    txt = txt.replace("This is a fourth round of testing: three earlier rounds of testers already produced nine changes", "This is a fifth round of testing: four earlier rounds of testers already produced twelve changes")
+    txt = txt.replace("Also consider:", "Kinds of change that have hardly been tried yet: unit, scale, rounding or offset arithmetic that is right for the common case; boundary values (empty, exactly one block, exactly the limit); the meaning of an option or argument of a library call; defaults applied while parsing configuration; the order of two steps that live in different functions; clean-up on an error path that is rarely taken; a second caller of a helper for whom the helper's assumption does not hold. Also consider:")
+suffix = "-r5" if round5 else "-r4" if round4 else ("-r3" if round3 else ("-r2" if round2 else ""))
 open("/tmp/prompt-%s%s.txt" % (pid, suffix), "w").write(txt)
 print("/tmp/prompt-%s%s.txt" % (pid, suffix))
